@@ -1468,7 +1468,8 @@ class Stage:
             ret._constraints[k] = list(zip(r, [merge_meta(m, get_meta()) for _, m, _ in v], [d for _, _, d in v]))
             r = r[len(v):]
 
-        ret._initial = HashOrderedDict(zip(res[n_constr+1:], self._initial.values()))
+        # a guess may be an expression of the template's time/horizon placeholders
+        ret._initial = HashOrderedDict(zip(res[n_constr+1:], [substitute([v], subst_from, subst_to)[0] if isinstance(v, MX) else v for v in self._initial.values()]))
 
         if "T" not in kwargs:
             ret._T = copy(self._T)
